@@ -93,6 +93,25 @@ def run_program(sg, hist, junk=0):
             y = sg.nn.functional.avg_pool1d(pool_in, 4)
             y.backward(sg.ones_like(y.data))
             out.append(h(*([p_.data for p_ in ps] + [p_.grad.data for p_ in ps] + [data.grad.data, pool_in.grad.data])))
+        elif api == "views":
+            # the same kinds of layers on operands that are strided views / column-major arrays (outputs of transpose,
+            # tensors built from ndarray.T): random data, conv1d + pooling + dropout + linear, two SGD steps
+            conv, lin = nn.Conv1d(3, 2, 2, padding=1), nn.Linear(4, 2)
+            drop = nn.Dropout(0.25)
+            opt = sg.optim.SGD(conv.parameters() + lin.parameters(), lr=0.1)
+            base = sg.randn(6, 3, 2, requires_grad=True)                       # (L, C, N) viewed as (N, C, L)
+            img = sg.Tensor(np.asfortranarray(np.linspace(-2, 2, 2 * 2 * 5 * 4, dtype=np.float32).reshape(2, 2, 5, 4) ** 3), requires_grad=True)
+            for _ in range(2):
+                opt.zero_grad()
+                hcur = nn.MaxPool1d(2)(conv(base.transpose(0, 2)))             # (2, 2, 3)
+                hcur = drop(hcur).transpose(1, 2).reshape((6, 2)).transpose(0, 1)      # (2, 6) strided
+                z = lin(hcur.reshape((3, 4)))
+                p2 = nn.AvgPool2d(2)(img) .sum() + nn.MaxPool2d((2, 1), padding=(1, 0))(img.transpose(2, 3)).mean()
+                loss = (z ** 2).mean() + p2 * 0.01
+                loss.backward()
+                opt.step()
+            ps = conv.parameters() + lin.parameters()
+            out.append(h(*([p_.data for p_ in ps] + [p_.grad.data for p_ in ps] + [base.grad.data, img.grad.data, z.data, np.array(loss.data)])))
         elif api == "train":
             model = nn.Sequential(nn.Linear(4, 5), nn.BatchNorm1d(5), nn.ReLU(), nn.Dropout(0.3), nn.Linear(5, 3))
             opt = sg.optim.Adam(model.parameters(), lr=0.05)
